@@ -964,6 +964,75 @@ func AttachVsEndBody(kind string) func(x *vrt.Exec) {
 	}
 }
 
+// DetachVsEndBody: a playing player leaves (TEARDOWN, or plain disconnect) at the very moment the
+// stream ends (the publisher disconnects). Both clean-up paths run concurrently over the same
+// consumer; afterwards everything must be released exactly once.
+func DetachVsEndBody(kind string, abrupt bool) func(x *vrt.Exec) {
+	return func(x *vrt.Exec) {
+		vrt.Quiet(true)
+		w := newWorld(x)
+		if w == nil {
+			return
+		}
+		w.apply("pub", false)
+		w.apply("attach:"+kind, false)
+		w.apply("pub", false)
+		p := w.players[kind]
+		old := media.Get("/live/p")
+		vrt.Quiet(false)
+		enderDone := false
+		vrt.GoNamed("ender", func() {
+			w.pusher.Conn.Close()
+			enderDone = true
+		})
+		switch {
+		case abrupt || p.httpW != nil || p.flvWS != nil:
+			switch {
+			case p.httpW != nil:
+				p.httpW.gone = true
+			case p.flvWS != nil:
+				p.flvWS.ClientClose()
+			case p.tcp != nil:
+				p.tcp.Conn.Close()
+			case p.ws != nil:
+				p.ws.Sock.ClientClose()
+			case p.wsp != nil:
+				p.wsp.Ctl.ClientClose()
+				p.wsp.Data.ClientClose()
+			}
+		case p.tcp != nil:
+			p.tcp.Send("TEARDOWN", pushURL, nil, "")
+		case p.ws != nil:
+			p.ws.Send("TEARDOWN", pushURL, nil, "")
+		case p.wsp != nil:
+			p.wsp.CSeq++
+			p.wsp.Seq++
+			req := fmt.Sprintf("TEARDOWN %s RTSP/1.0\r\nCSeq: %d\r\n\r\n", pushURL, p.wsp.CSeq)
+			p.wsp.Ctl.Push(1, []byte(fmt.Sprintf("WSP/1.1 WRAP\r\ncontentLength: %d\r\nseq: %d\r\n\r\n%s", len(req), p.wsp.Seq, req)))
+		}
+		vrt.Point("join-ender", &enderDone, func() bool { return enderDone })
+		vrt.WhenIdle()
+		vrt.Quiet(true)
+		kk := strings.TrimRight(kind, "12")
+		x.Observe("%s closed=%v", kind, p.serverClosed())
+		if !p.serverClosed() {
+			x.Failf("release leaving-player-not-disconnected "+kk, "the %s player left while the stream ended and its connection is still open on the server side", kind)
+		}
+		if n := old.ConsumerCount(); n != 0 {
+			x.Failf("release consumer-count-not-zero detach-race "+kk, "the ended stream counts %d consumers", n)
+		}
+		if media.Get("/live/p") != nil {
+			x.Failf("release stream-left-registered detach-race "+kk, "the publisher disconnected but /live/p still resolves")
+		}
+		if n := vnet.OpenUDP(); n != 0 {
+			x.Failf("release udp-socket-left-open detach-race "+kk, "%d UDP sockets open after the stream ended and the player left", n)
+		}
+		w.closeAllClients()
+		w.checkCounters("release-at-end detach-race "+kk, "publisher-disconnect", "leave || publisher disconnect", 0, 0, 0)
+		stuck(x, "release-at-end detach-race "+kk)
+	}
+}
+
 // FanoutScenarios are C01's.
 func FanoutScenarios(thorough bool) []runner.Scenario {
 	steps, e, sh, mcP := 6, 3, 8, 2
@@ -992,6 +1061,10 @@ func ReleaseScenarios(thorough bool) []runner.Scenario {
 	}
 	for _, k := range []string{"tcp", "udp", "mc1", "ws", "wsp", "hflv", "wflv"} {
 		out = append(out, runner.Scenario{Name: "attach-vs-publisher-disconnect-" + k, Body: AttachVsEndBody(k), P: p, Shards: sh, Horizon: 400000, NoFine: true})
+		out = append(out, runner.Scenario{Name: "disconnect-vs-publisher-disconnect-" + k, Body: DetachVsEndBody(k, true), P: p, Shards: sh, Horizon: 400000, NoFine: true})
+		if k != "hflv" && k != "wflv" {
+			out = append(out, runner.Scenario{Name: "teardown-vs-publisher-disconnect-" + k, Body: DetachVsEndBody(k, false), P: p, Shards: sh, Horizon: 400000, NoFine: true})
+		}
 	}
 	return out
 }
